@@ -4,12 +4,14 @@ import (
 	"bytes"
 	"encoding/json"
 	"fmt"
+	"hash/crc32"
 	"os"
 	"path/filepath"
 	"reflect"
 	"sort"
 	"strconv"
 	"strings"
+	"time"
 
 	"verifharness/fw"
 
@@ -809,6 +811,73 @@ func judgeText(c *fw.Ctx, tc *textCase) {
 	c.Rec.Count("text_level_controls")
 }
 
+// judgeReplaced: a file is loaded, then replaced by ANOTHER document of the same length, the same modification time and the
+// same CRC-32 (twelve characters of its title are solved for), and loaded again from the same path: the loader must return
+// what the new content decodes to (or its error), not what it remembers. Catches any cache keyed by path, size, time or a
+// weak checksum.
+func judgeReplaced(c *fw.Ctx, dc *docCase) {
+	var mb map[string]any
+	if json.Unmarshal([]byte(dc.Doc), &mb) != nil || dc.Base == "" {
+		return
+	}
+	base, err := loadDoc(dc.Base)
+	if err != nil {
+		return
+	}
+	ma := cloneDoc(base)
+	mb["title"], ma["title"] = "@@@@@@@@@@@@", "first"
+	ta, _ := json.Marshal(ma)
+	tb, _ := json.Marshal(mb)
+	if d := len(tb) - len(ta); d > 0 {
+		ma["title"] = "first" + strings.Repeat("x", d)
+	} else if d < 0 {
+		mb["title"] = "@@@@@@@@@@@@" + strings.Repeat("y", -d)
+	}
+	ta, _ = json.Marshal(ma)
+	tb, _ = json.Marshal(mb)
+	pad := bytes.Index(tb, []byte("@@@@@@@@@@@@"))
+	if pad < 0 || len(ta) != len(tb) {
+		return
+	}
+	tb, ok := forceCRC32(tb, pad, crc32.ChecksumIEEE(ta))
+	if !ok || bytes.Equal(ta, tb) {
+		c.Rec.Count("skip:crc_system_singular")
+		return
+	}
+	cj, _ := json.Marshal(map[string]any{"replaced_file": true, "first": string(ta), "second": string(tb)})
+	c.Rec.SetCurrent(cj)
+	c.Rec.Eval()
+	path := filepath.Join(c.Tmp, "c16_replaced.json")
+	when := time.Unix(1750000000, 0)
+	if os.WriteFile(path, ta, 0o644) != nil || os.Chtimes(path, when, when) != nil {
+		return
+	}
+	var want, got tms20.TileMatrixSet
+	var errWant, errGot, errFirst error
+	var pan any
+	func() {
+		defer func() { pan = recover() }()
+		_, errFirst = tms20.LoadJSONTileMatrixSet(path)
+		if os.WriteFile(path, tb, 0o644) != nil || os.Chtimes(path, when, when) != nil {
+			panic("harness: cannot replace the file")
+		}
+		got, errGot = tms20.LoadJSONTileMatrixSet(path)
+		errWant = json.Unmarshal(tb, &want)
+	}()
+	c.Rec.Count("file_replaced_by_a_document_of_equal_length_mtime_and_crc32")
+	c.Rec.NonTrivial(fw.Hash64(tb))
+	switch {
+	case pan != nil:
+		c.Rec.Violation("decode-panics", "replaced", fmt.Sprintf("loading a replaced file panicked: %v", pan), cj, nil)
+	case errFirst != nil:
+		c.Rec.Note("first document did not load: " + errFirst.Error())
+	case (errWant == nil) != (errGot == nil):
+		c.Rec.Violation("file-loader-returns-stale-document", "", fmt.Sprintf("%s: the file was replaced by another document (same length, modification time and CRC-32; %s); json.Unmarshal of the new content: err=%v, LoadJSONTileMatrixSet of the same path: err=%v", dc.Base, strings.Join(dc.Muts, "; "), errWant, errGot), cj, nil)
+	case errWant == nil && !semEqual(reflect.ValueOf(want), reflect.ValueOf(got)):
+		c.Rec.Violation("file-loader-returns-stale-document", "", fmt.Sprintf("%s: the file was replaced by another document (same length, modification time and CRC-32; %s) but LoadJSONTileMatrixSet returns a value that differs from what the new content decodes to: %s", dc.Base, strings.Join(dc.Muts, "; "), firstDiff(want, got)), cj, nil)
+	}
+}
+
 func init() {
 	fw.Register(&fw.Prop{
 		ID: "C16", Cases: tierN(80000, 2000000),
@@ -824,11 +893,22 @@ func init() {
 					judgeText(c, tc)
 				}
 			}
+			if c.Idx%20 == 7 {
+				judgeReplaced(c, dc)
+			}
 			if c.Idx%2000 < 16 { // each worker, every 2000 cases
 				checkEmbeddedStillOriginal(c)
 			}
 		},
 		Replay: func(c *fw.Ctx, raw json.RawMessage) {
+			var rp struct {
+				Replaced      bool `json:"replaced_file"`
+				First, Second string
+			}
+			if json.Unmarshal(raw, &rp) == nil && rp.Replaced {
+				c.Rec.Note("replaced-file cases are re-run by the check itself (they need two writes to one path); see the two documents of the case")
+				return
+			}
 			var tc textCase
 			if json.Unmarshal(raw, &tc) == nil && tc.How != "" {
 				judgeText(c, &tc)
@@ -845,9 +925,9 @@ func init() {
 			}
 			judgeDoc(c, &dc)
 		},
-		Rule: "the 14 built-in documents + one synthetic document using every optional member, unmodified and under 1-3 composed structural mutations (delete member, replace by another JSON kind, numeric/string edge values, drop/duplicate/extend array elements, unknown members, CRS swapped among URI string / URI object / wkt / referenceSystem forms); every document that decodes: encode, decode again, DeepEqual of the two values incl. dynamic CRS type, second encoding byte-identical; unmodified documents: re-encoded JSON semantically equal to the file; documents in a demanded-reject class (independent predicate on the JSON tree: crs or tileMatrices missing/null/wrong kind/empty, typed member of another JSON kind, sizes/cell size/scale <= 0, non-integer id) must return an error; no document may panic; every 10th case additionally as TEXT that is not one JSON value (trailing junk, the document twice, truncated, top-level object closed early, leading junk), through json.Unmarshal and through the file loader LoadJSONTileMatrixSet: both must return an error, and on well-formed text the two must agree; history clauses: after a sibling document with the same crs uri in the other form (string <-> object) is decoded, the first value must still encode as before, and the embedded built-in sets handed out by LoadEmbeddedTileMatrixSet must still re-encode to their documents after thousands of other decodes in the same process; non-trivial = document that decodes or falls in a demanded class; distinct by document text",
+		Rule: "the 14 built-in documents + one synthetic document using every optional member, unmodified and under 1-3 composed structural mutations (delete member, replace by another JSON kind, numeric/string edge values, drop/duplicate/extend array elements, unknown members, CRS swapped among URI string / URI object / wkt / referenceSystem forms); every document that decodes: encode, decode again, DeepEqual of the two values incl. dynamic CRS type, second encoding byte-identical; unmodified documents: re-encoded JSON semantically equal to the file; documents in a demanded-reject class (independent predicate on the JSON tree: crs or tileMatrices missing/null/wrong kind/empty, typed member of another JSON kind, sizes/cell size/scale <= 0, non-integer id) must return an error; no document may panic; every 10th case additionally as TEXT that is not one JSON value (trailing junk, the document twice, truncated, top-level object closed early, leading junk), through json.Unmarshal and through the file loader LoadJSONTileMatrixSet: both must return an error, and on well-formed text the two must agree; every 20th case: a file is loaded, replaced by the document of the case with the same length, modification time and CRC-32 (twelve title characters are solved for) and loaded again from the same path - the loader must return what the new content decodes to; history clauses: after a sibling document with the same crs uri in the other form (string <-> object) is decoded, the first value must still encode as before, and the embedded built-in sets handed out by LoadEmbeddedTileMatrixSet must still re-encode to their documents after thousands of other decodes in the same process; non-trivial = document that decodes or falls in a demanded class; distinct by document text",
 		Required: func(string) []string {
-			return []string{"history:sibling_documents_decoded_between_encodings", "history:embedded_sets_re-encoded_after_other_decodes", "decoded", "rejected_with_error", "demanded_reject_documents", "original_documents_compared", "crs_form:URICRS", "crs_form:URICRS-as-string", "crs_form:WKTCRS", "crs_form:ReferenceSystemCRS", "text_level_cases", "text_level_controls", "text_defect:trailing", "text_defect:truncated", "text_defect:top-level", "text_defect:document"}
+			return []string{"history:sibling_documents_decoded_between_encodings", "history:embedded_sets_re-encoded_after_other_decodes", "decoded", "rejected_with_error", "demanded_reject_documents", "original_documents_compared", "crs_form:URICRS", "crs_form:URICRS-as-string", "crs_form:WKTCRS", "crs_form:ReferenceSystemCRS", "text_level_cases", "text_level_controls", "file_replaced_by_a_document_of_equal_length_mtime_and_crc32", "text_defect:trailing", "text_defect:truncated", "text_defect:top-level", "text_defect:document"}
 		},
 		MinNonTriv:  1000,
 		Assumptions: []string{"accept/reject is demanded only for the classes the statement names; null for an optional member, fractional sizes, duplicate ids, short arrays and unknown members carry no demand", "value equality = deep equality of tms20.TileMatrixSet incl. unexported CRS fields, nil and empty lists/maps being equal"},
